@@ -152,6 +152,35 @@ def _worker(mod_id: str, seed: int, tier: str, w: int, nw: int, deadline: float,
                 dump()
                 last_dump = time.time()
             res = run_one(mod, case, case_timeout)
+            if (str(res.get("harness_error", "")).startswith(
+                    "case wall timeout") and
+                    getattr(mod, "HANG_IS_VIOLATION", False)):
+                # a busy loop in plain Python code has no yield point at
+                # which the step budget could stop it: for properties that
+                # promise termination the case is run again in a fresh
+                # interpreter with a longer deadline; a second time-out is
+                # the verdict (an answer replaces the time-out)
+                wall = res.get("wall", 0.0)
+                mem = float(os.environ.get("VERIF_MEM_LIMIT_GB", "6")) * 2**30
+                again = rerun_sandboxed(mod_id, cur_path, case_timeout + 60,
+                                        mem)
+                if again.get("sandbox_failure"):
+                    res = {"ok": False,
+                           "vclass": "hang_or_blowup_observed_by_watchdog",
+                           "detail": f"case {case.get('_index')}: no result "
+                           f"within {case_timeout:.0f} s; re-run in a fresh "
+                           f"interpreter: {again['sandbox_failure']}",
+                           "key": {"engine": "watchdog"},
+                           "digest": "watchdog", "stats": {}, "faults": {},
+                           "probes": {"watchdog_verdicts": 1},
+                           "nontrivial": False, "wall": wall}
+                else:
+                    res = again
+                    for k_, d_ in (("stats", {}), ("faults", {}),
+                                   ("probes", {}), ("nontrivial", False),
+                                   ("vclass", None), ("detail", "")):
+                        res.setdefault(k_, d_)
+                    res["wall"] = wall
             if os.environ.get("VERIF_DEBUG") and res.get("wall", 0) > 3:
                 print(f"[debug] slow case {i}: {res['wall']:.1f}s "
                       f"{res.get('vclass')}", file=sys.stderr)
@@ -715,6 +744,12 @@ def cmd_replay(path: str) -> int:
     if hasattr(mod, "setup"):
         mod.setup("quick", build=True)
     res = run_one(mod, rep["case"], mod.budget("thorough")["case_timeout"])
+    if (rep["violation_class"] == "hang_or_blowup_observed_by_watchdog" and
+            str(res.get("harness_error", "")).startswith("case wall timeout")):
+        print(f"VIOLATION property={prop} replay={path}")
+        print(f"  class={rep['violation_class']} digest_identical=True "
+              f"detail='no result again within the case deadline'")
+        return 1
     if res.get("harness_error"):
         print("HARNESS-ERROR: " + res["harness_error"], file=sys.stderr)
         return 2
